@@ -27,8 +27,8 @@ theorem pf_content (c : Ctx) (pf : PF) (cs : List Ch) (hch : ∀ ch ∈ cs, ChOk
   case tupleExpr =>
     unfold printTupleExpr
     split
-    · next h => rw [if_pos h] at hk; exact oneTuple_content c cs hch hk
-    · next h => rw [if_neg h] at hk; exact list_content c cs hch hk
+    · exact leafChildren_content c cs
+    · next h => simp only [h, Bool.false_or] at hk; exact list_content c cs hch hk
   case recordExpr => exact rec_content c cs hch hk.1 hk.2
   case parenExpr => exact groupedConcat_content c cs
   case macroExpansion => exact mac_content c cs hch hk
